@@ -182,3 +182,12 @@ Theorem C09_backup_step_unserialised_refuted : exists oldf oldb newf newb,
 Proof. exact unlocked_outcome_depends_on_schedule. Qed.
 Print Assumptions C09_backup_step_orders_agree.
 Print Assumptions C09_backup_step_unserialised_refuted.
+
+(* ---- what xcp does with what it finds at the mapped destination (DestMatrix.v; every cell compared with the binary
+   on every run) ---- *)
+From XcpModel Require Import DestMatrix.
+From XcpProofs Require Import DestMatrixProofs.
+Theorem C09_backup_preserves_what_a_file_replaces : forall d, d <> DAbsent ->
+  dest_outcome SFile d OBackup = CreatedBackedUp \/ dest_outcome SFile d OBackup = Refused.
+Proof. exact backup_preserves_what_a_file_replaces. Qed.
+Print Assumptions C09_backup_preserves_what_a_file_replaces.
